@@ -222,7 +222,8 @@ def rule_enable(ctx):
 
 
 # kind/name dispatch table
-IMPORTS = [('C06', 'C06.KEY'), ('C11', 'C11.RECOVER'), ('C04', 'C04.ACC'), ('C04', 'C04.DEV'), ('C02', 'C02.DISCARD'), ('C02', 'C02.CONSUME'), ('C11', 'C11.NOGROW')]
+# the bytes of a client are turned into text before any per-message containment: a codec that can fail ends the connection
+IMPORTS = [('C02', 'C02.DECODE'), ('C06', 'C06.KEY'), ('C11', 'C11.RECOVER'), ('C04', 'C04.ACC'), ('C04', 'C04.DEV'), ('C02', 'C02.DISCARD'), ('C02', 'C02.CONSUME'), ('C11', 'C11.NOGROW')]
 
 def rule_regex(ctx):
     from . import bufferrules as B
